@@ -40,7 +40,10 @@ TInject == /\ Ev.e = "inject" /\ ~Ev.panic
                                          /\ \A k \in DOMAIN Ev.bws : FragmentOk(Ev.hws[k], Ev.bws[k], Ev.payload, Ev.benign, Ev.inner)
                   [] OTHER -> /\ Ev.aligned /\ Len(Ev.bws) >= 1 /\ Len(Ev.hws) = Len(Ev.bws)
                               /\ \A k \in DOMAIN Ev.bws : OneToken(Ev.bws[k], Ev.kind, Ev.benign) /\ OneToken(Ev.hws[k], Ev.kind, Ev.payload)
-TNext == l <= Len(TraceLog) /\ TInject /\ l' = l + 1
+\* comment{prefix}: what the driver's entry point (translate.FromCypher) writes in front of the statement - the query text as a
+\* comment: whatever the query holds, that stretch lexes to no token at all
+TComment == Ev.e = "comment" /\ Lex(Ev.prefix) = <<>>
+TNext == l <= Len(TraceLog) /\ (TInject \/ TComment) /\ l' = l + 1
 TSpec == TInit /\ [][TNext]_l
 HW == TLCSet(1, IF l > TLCGet(1) THEN l ELSE TLCGet(1))
 Accepted == IF TLCGet(1) = Len(TraceLog) + 1 THEN TRUE ELSE PrintT(<<"STUCK_AT_LINE", TLCGet(1)>>) /\ FALSE
